@@ -15,6 +15,7 @@ use deno_ast::swc::ast::{
   VarDeclOrExpr, WhileStmt, WithStmt,
 };
 use deno_ast::swc::atoms::Atom;
+use deno_ast::swc::common::SyntaxContext;
 use deno_ast::swc::ecma_visit::noop_visit_type;
 use deno_ast::swc::ecma_visit::{Visit, VisitWith};
 use deno_ast::swc::utils::find_pat_ids;
@@ -82,7 +83,7 @@ type Scope = Rc<RefCell<RawScope>>;
 #[derive(Debug)]
 struct RawScope {
   parent: Option<Scope>,
-  variables: BTreeMap<Atom, SourceRange>,
+  variables: BTreeMap<Atom, (SyntaxContext, SourceRange)>,
 }
 
 impl RawScope {
@@ -114,7 +115,12 @@ fn get_decl_by_ident(scope: Scope, ident: &Ident) -> Option<DeclInfo> {
   let mut cur_scope = Some(scope);
   let mut is_current_scope = true;
   while let Some(cur) = cur_scope {
-    if let Some(&range) = cur.borrow().variables.get(&ident.sym) {
+    // a variable of the same name bound by another declaration (e.g. a `var` or a parameter that is not
+    // tracked here) has a different syntax context
+    if let Some(&(ctxt, range)) = cur.borrow().variables.get(&ident.sym) {
+      if ctxt != ident.ctxt {
+        return None;
+      }
       return Some(DeclInfo {
         range,
         in_other_scope: !is_current_scope,
@@ -276,7 +282,9 @@ impl VariableCollector {
   fn insert_var(&mut self, ident: &Ident, status: VarStatus) {
     self.var_groups.add_root(ident.range(), status);
     let mut scope = self.scopes.get(&self.cur_scope).unwrap().borrow_mut();
-    scope.variables.insert(ident.sym.clone(), ident.range());
+    scope
+      .variables
+      .insert(ident.sym.clone(), (ident.ctxt, ident.range()));
   }
 
   fn insert_vars(&mut self, idents: &[&Ident], status: VarStatus) {
